@@ -22,6 +22,12 @@ CLAIMED = {
          "static analysis: switch/range table extraction with interval sets over byte values, path-pair comparison, callee whitelists"),
  'C04': ("decides for all inputs: rank constants and the entry-tag->rank table follow the documented ranking, every header-kind pair has the outcome the ranking demands with antisymmetric constants and (left,right) argument order, same-kind scalars compare decoded numbers / strings left-vs-right, no lossy numeric comparison (R18.4), each argument of compare is dispatched on its own representation, both sides' cursors advance by their own entries, tie-break by length. Order laws as such and Equal<=>value-equal are NOT decided",
          "static analysis: table extraction from MIR switches, path enumeration, provenance of comparator arguments, walker dataflow"),
+ 'C08': ("decides for all accepted paths and valid documents: no todo!/unimplemented! reachable; selector panic inventory (document slices assumed valid, queue pops by count accounting, unreachable! arms as reviewed assumptions tied to the parser's constructible variants); no i32 overflow over the whole index range; convert_index/convert_slice only return positions in [0,length); the six-operator table over the three orderings and the &&/|| truth tables; every constructible step variant has an arm; compare_value always gets (left,right); evaluator recursion is a known finding. That the selected items are exactly those denoted is NOT decided",
+         "static analysis: call-graph reachability, panic-site provers, interval analysis, operator/truth-table extraction from MIR paths, argument provenance"),
+ 'C15': ("decides for all paths/documents: the entry points funnel through find_positions and three writers, the mode is read only by select, the mode table (with the exact count interval for mixed mode), one offset per item taken after its bytes, one entry word per popped position in array mode, predicate/exists/match derive their boolean from the same non-emptiness",
+         "static analysis: who-may-read/who-may-call rules, path enumeration with branch intervals, CFG must-pass-through"),
+ 'C19': ("decides for all documents: number and kind mapping tables of the three converters (u64 before i64 before f64; exact integer conversions; non-finite -> Err in the byte walker), the object-only variant returns None exactly for array/scalar headers and shares the element converter. Structural fidelity of whole documents is NOT decided",
+         "static analysis: table extraction from MIR switch arms and constructor aggregates"),
 }
 NOT_APPLICABLE = {
 }
